@@ -238,3 +238,39 @@ def run(ctx):
             okw_set.add(am.ix(n)["handlers"][0].key)
     okw = reg is not None and set(ws) <= okw_set
     ctx.inst("C19.R3", "destination-writers", okw and bool(ws), "the registered emissions wallet is assigned only by the authority-signed registration (and account initialisation)", ws, None)
+
+
+
+def _emissions_funding(ctx):
+    """C19.R3: what the emissions admin funds is what is promised: the pool grows by the net amount the vault receives,
+    the transfer is grossed up for the Token-2022 fee."""
+    import re
+    prog = ctx.prog
+    for nm, want_pool in (("lending_pool_setup_emissions", "from_num(p4)"), ("lending_pool_update_emissions_parameters", "checked_add(from_num(p4),load_mut(p1.accounts.bank).emissions_remaining)")):
+        fs = [x for x in prog.find_fns({"name": nm, "crate": "marginfi"}) if "::instructions::" in x.key]
+        if len(fs) != 1:
+            ctx.missing("C19.R3", nm)
+            continue
+        f = fs[0]
+        pools = []
+        for bi, bb in enumerate(f.blocks):
+            for s_ in bb["s"]:
+                d_ = s_.get("d")
+                if d_ and d_.get("p") and any(isinstance(e, dict) and e.get("n") == "emissions_remaining" for e in d_["p"]) and s_.get("v"):
+                    pools.append(rvalue_tree(prog, f, s_["v"], inline=1))
+        tr = [expr_tree(prog, f, c.args[1], inline=1) for c in f.calls() if c.callee and c.callee["name"] in ("transfer_checked", "deposit_spl_transfer") and len(c.args) >= 2]
+        okp = pools == [want_pool]
+        okt = tr == ["calculate_pre_fee_spl_deposit_amount(to_account_info(p1.accounts.emissions_mint),p4,get().epoch)"]
+        ctx.inst("C19.R3", "funding/credited-equals-net-received/" + nm, okp and okt,
+                 "%s: emissions_remaining %s the funded amount x, and the funder is charged pre-fee(x) so that x arrives in the emissions vault" % (nm, "becomes" if "setup" in nm else "grows by"),
+                 {"pool": pools, "transfer": tr}, f.loc(f.raw["span"]))
+
+
+_run_pre_funding = run
+
+
+def run(ctx):
+    try:
+        _run_pre_funding(ctx)
+    finally:
+        _emissions_funding(ctx)
